@@ -241,7 +241,6 @@ def facts():
             frame_hooks={h: _mod(getattr(Model.Frame, h)) for h in
                          ('get_data', '_get_predicates_data', '_get_predicate_data_values',
                           '_get_sentencemap_data', '_get_predicate_data_part')},
-            classical_fixed=hasattr(Model, '_close_identity'),
             gen=gen_tables(logic),
         )
         res.append(ent)
